@@ -121,15 +121,35 @@ static void boxes(vh::Rng & r, vh::Out & out)
     } else {
       for (size_t a = 0; a < DIM; ++a) {p2.push_back(c2[a] + r.range(-60, 60));}
     }
+    // single precision, a box far from the origin along ONE axis (coordinates of 2^20, where a float resolves 1/8) turned by a
+    // signed permutation, lengths in units of 1/32: the query point and the point relative to the centre are exactly representable,
+    // but a box-frame coordinate added to the far component of the centre is not
+    S unit = 1;
+    if (sizeof(S) == 4 && den == 1 && r.coin(1, 3)) {
+      unit = (S)(1.0 / 32);
+      const size_t farAxis = (size_t)r.range(0, DIM - 1);
+      p2.clear();
+      IV t(DIM);
+      for (size_t a = 0; a < DIM; ++a) {
+        c2[a] = a == farAxis ? (1LL << 26) * (r.coin() ? 1 : -1) : r.range(-40, 40);
+        h2[a] = r.range(1, 60);
+        int st = (int)r.range(0, 4);
+        t[a] = st == 0 ? h2[a] : st == 1 ? -h2[a] : st == 2 ? (r.coin() ? 1 : -1) * (h2[a] + r.range(1, 3)) : st == 3 ? (r.coin() ? 1 : -1) * std::max(0LL, h2[a] - r.range(1, 3)) : r.range(-70, 70);
+      }
+      // the box-frame component that lands on the far axis must be a multiple of 1/8 (8 doubled units of 1/32)
+      for (size_t n = 0; n < DIM; ++n) {if (Q[farAxis][n] != 0) {t[n] = (t[n] / 8) * 8;}}
+      for (size_t a = 0; a < DIM; ++a) {long long s2 = 0; for (size_t n = 0; n < DIM; ++n) {s2 += Q[a][n] * t[n];} p2.push_back(c2[a] + s2);}
+    }
+    auto halfU = [&](const IV & v2) {P p; for (size_t a = 0; a < DIM; ++a) {p[a] = (S)((double)v2[a] / 2.0 * (double)unit);} return p;};
     Eigen::Matrix<S, DIM, DIM> R;
     for (size_t i = 0; i < DIM; ++i) {for (size_t j = 0; j < DIM; ++j) {R(i, j) = (S)((double)Q[i][j] / den);}}
-    OrientedBoundingBox<S, DIM> obb(half(c2), half(h2), R);
+    OrientedBoundingBox<S, DIM> obb(halfU(c2), halfU(h2), R);
     auto ab = obb.toAxisAlignedBoundingBox();
     bool ok = true; IV ahden, ac2;
     for (size_t a = 0; a < DIM; ++a) {
-      ahden.push_back(pr<S>(2.0 * den * ab.getHalfWidthExtents()[a], ok)); ac2.push_back(pr<S>(2.0 * ab.getCenterPosition()[a], ok));
+      ahden.push_back(pr<S>(2.0 * den * ab.getHalfWidthExtents()[a] / unit, ok)); ac2.push_back(pr<S>(2.0 * ab.getCenterPosition()[a] / unit, ok));
     }
-    out.put(vh::Ev("obb").vec("c2", c2).vec("h2", h2).mat("Q", Q).i("den", den).vec("p2", p2).b("inside", obb.isInside(half(p2)))
+    out.put(vh::Ev("obb").vec("c2", c2).vec("h2", h2).mat("Q", Q).i("den", den).vec("p2", p2).b("inside", obb.isInside(halfU(p2)))
       .vec("ahden", ahden).vec("ac2", ac2).b("exact", ok));
   }
 }
